@@ -293,6 +293,7 @@ __attribute__((noreturn)) static void finish(int verdict, const char* key,
                g.devi, g.job->dev[g.devi].step, r->nsteps);
     }
     r->verdict      = verdict;
+    snprintf(r->tag, sizeof r->tag, "%s", g.tag);
     r->trace_hash   = g.trace;
     r->outcome_hash = g.outcome;
     r->nops         = g.nops;
